@@ -339,7 +339,7 @@ func genStream(r *vk.Run, budget int) {
 		ear.Next()
 	}
 	bss := []int{1, 2, 7, 8, 9, 16, 33}
-	per := budget / 12
+	per := budget / 18
 	for kind := stRead; kind <= stExecAll; kind++ {
 		for k := 0; k < per; k++ {
 			ps := stPayloads(r.Rng, kind)
@@ -372,7 +372,7 @@ func genStream(r *vk.Run, budget int) {
 			}
 		}
 	}
-	for k := 0; k < budget/12; k++ {
+	for k := 0; k < budget/16; k++ {
 		s := vk.SmallBiased(r.Rng, r.Rng.Intn(40))
 		caseStream(r, r.Rng.Intn(5), stCut(r.Rng, s, 3, nil), r.Rng.Intn(4) != 0, bss[r.Rng.Intn(len(bss))], 12, "random")
 	}
@@ -397,7 +397,7 @@ func genStream(r *vk.Run, budget int) {
 		}
 		caseReadFully(r, [][]byte{flat[:8+len(pay)/2], flat[8+len(pay)/2:], pay}, true, "length")
 	}
-	for k := 0; k < budget/12; k++ {
+	for k := 0; k < budget/16; k++ {
 		flat := append(u64b(uint64(r.Rng.Intn(40))), vk.RandBytes(r.Rng, r.Rng.Intn(40))...)
 		caseReadFully(r, stCut(r.Rng, flat, 3, nil), r.Rng.Intn(4) != 0, "random")
 	}
